@@ -13,6 +13,8 @@ import (
 	"reflect"
 	"sort"
 	"strings"
+	"sync"
+	"sync/atomic"
 
 	"github.com/compose-spec/compose-go/v2/types"
 	"github.com/distribution/reference"
@@ -376,6 +378,83 @@ func (j *judgeCtx) renderAll(p *types.Project, deriv string) {
 	}
 }
 
+// overlapping: plain renderings that overlap in time with a rendering for which another goroutine
+// asked for secret content. Nobody asked for content in the plain ones: they must be byte for byte
+// what the same project renders when nothing else is going on (searched for canaries above).
+func (j *judgeCtx) overlapping(p *types.Project) {
+	s := j.s
+	quiet := map[string][]byte{}
+	for _, m := range modes[:2] {
+		b, err, pi := render(p, m)
+		if err != nil || pi != nil {
+			return
+		}
+		quiet[m.format] = b
+	}
+	other, err := p.WithProfiles(p.Profiles) // an independent copy of the project
+	if err != nil {
+		return
+	}
+	const rounds = 30
+	var stop atomic.Bool
+	var plain, content sync.WaitGroup
+	var mu sync.Mutex
+	var bad []string
+	content.Add(1)
+	go func() {
+		defer content.Done()
+		for i := 0; !stop.Load(); i++ {
+			_, _, _ = render(p, modes[2+i%2])
+		}
+	}()
+	for g := 0; g < 3; g++ {
+		plain.Add(1)
+		go func(g int) {
+			defer plain.Done()
+			q := p
+			if g == 2 {
+				q = other
+			}
+			for i := 0; i < rounds; i++ {
+				m := modes[(g+i)%2]
+				b, err, pi := render(q, m)
+				if err == nil && pi == nil && bytes.Equal(b, quiet[m.format]) {
+					continue
+				}
+				what := fmt.Sprintf("plain %s rendering #%d of goroutine %d", m.format, i, g)
+				switch {
+				case pi != nil:
+					what += " panicked: " + pi.Value
+				case err != nil:
+					what += " failed: " + err.Error()
+				default:
+					what += " differs from the quiet rendering: " + firstDiff(string(quiet[m.format]), string(b))
+				}
+				mu.Lock()
+				bad = append(bad, what)
+				mu.Unlock()
+				return
+			}
+		}(g)
+	}
+	plain.Wait()
+	stop.Store(true)
+	content.Wait()
+	s.Eval(3 * rounds)
+	s.Add("plain_renderings_overlapping_a_secret_content_rendering", 3*rounds)
+	s.Cover("derivation", "plain rendering overlapping a rendering with secret content")
+	if len(bad) > 0 {
+		leak := ""
+		for _, cr := range j.allCores {
+			if strings.Contains(bad[0], cr.core) {
+				leak = " (canary of " + cr.section + " " + cr.name + ")"
+			}
+		}
+		j.vio(map[string]string{"kind": "plain-rendering-changed-by-overlapping-content-rendering"},
+			"while another goroutine renders with secret content: "+bad[0]+leak)
+	}
+}
+
 func (j *judgeCtx) coresOf(section, name string) []string {
 	for _, o := range j.k.Objects {
 		if o.Section == section && o.Name == name {
@@ -569,6 +648,9 @@ func judge(s *core.Shard, k *kase) {
 	}
 
 	j.renderAll(p, "loaded")
+	if nontrivial && len(k.LD.Key())%3 == 0 {
+		j.overlapping(p)
+	}
 
 	// derivations (taken after the project has been rendered with WithSecretContent)
 	names := p.ServiceNames()
